@@ -226,16 +226,13 @@ theorem canon_clues {h w : Nat} {rooms : List (List (Nat × Nat))} (hv : ValidPa
   obtain ⟨cl, hcl1, hcl2⟩ := key _ hperm
   exact ⟨cl, hcl1, by rw [hcl2.length_eq, hl], fun c hc => hcl c (hcl2.mem_iff.1 hc)⟩
 
-theorem roundtrip_heyawake (h w : Nat) (hh : 1 ≤ h) (hw : 1 ≤ w) (hdh : DecimalOk h) (hdw : DecimalOk w)
+/-- the body of a heyawake URL: produced, decoded back, and read by the independent decoder (no URL layer involved) -/
+theorem heyawake_body (h w : Nat) (hh : 1 ≤ h) (hw : 1 ≤ w)
     (rooms : List (List (Nat × Nat))) (hv : ValidPartition h w rooms) (clues : List Int)
     (hl : clues.length = rooms.length) (hcl : ∀ c ∈ clues, ClueVal c) :
     ∃ body, serProblem Gen.heyawakeCodec.comb (.tuple [roomsVal rooms, .list (clueVals clues)]) h w = .ok body ∧
-      serializeHeyawake h w (roomsVal rooms) (.list (clueVals clues))
-        = .ok (defaultPrefix ++ tail Gen.heyawakeCodec.urlName w h body) ∧
-      deserializePuzzle Gen.heyawakeCodec (defaultPrefix ++ tail Gen.heyawakeCodec.urlName w h body)
-        = .ok (.tuple [.int h, .int w,
-            .tuple [roomsVal (canonRooms h w rooms), .list (canonValues h w rooms (clueVals clues))]]) ∧
-      getPuzzleInfo (defaultPrefix ++ tail Gen.heyawakeCodec.urlName w h body) = .ok (Gen.heyawakeCodec.urlName, h, w) ∧
+      de Gen.heyawakeCodec.comb ⟨h, w⟩ body 0 = .ok (body.length,
+        [.tuple [roomsVal (canonRooms h w rooms), .list (canonValues h w rooms (clueVals clues))]]) ∧
       ∃ cl : List Int, canonValues h w rooms (clueVals clues) = clueVals cl ∧
         Pzpr.decodeHeyawakeN h w rooms.length body = some (bordersOf h w rooms, cl) := by
   have hl' : (clueVals clues).length = rooms.length := by simpa [clueVals] using hl
@@ -266,7 +263,27 @@ theorem roundtrip_heyawake (h w : Nat) (hh : 1 ≤ h) (hw : 1 ≤ w) (hdh : Deci
   have hde0 := hde [] []
   simp only [List.nil_append, List.append_nil, List.length_nil] at hde0
   rw [← heyawake_comb] at hde0
-  refine ⟨t1 ++ t2, hsp, ?_, ?_, ?_, cl, hcv, ?_⟩
+  refine ⟨t1 ++ t2, hsp, hde0, cl, hcv, ?_⟩
+  have hb := C16Bits.pzpr_rooms_borders h w hh hw _ hv' true false t1 (by simpa [ser] using hs1) t2
+  have hn := C16PzprNum.pzpr_clue_seq ⟨h, w⟩ cl hclv t2 (by rw [hcll]; exact ht2)
+  rw [hcll] at hn
+  rw [bordersOf_perm hv hperm] at hb
+  simp [Pzpr.decodeHeyawakeN, hb, hn, Pzpr.whole]
+
+theorem roundtrip_heyawake (h w : Nat) (hh : 1 ≤ h) (hw : 1 ≤ w) (hdh : DecimalOk h) (hdw : DecimalOk w)
+    (rooms : List (List (Nat × Nat))) (hv : ValidPartition h w rooms) (clues : List Int)
+    (hl : clues.length = rooms.length) (hcl : ∀ c ∈ clues, ClueVal c) :
+    ∃ body, serProblem Gen.heyawakeCodec.comb (.tuple [roomsVal rooms, .list (clueVals clues)]) h w = .ok body ∧
+      serializeHeyawake h w (roomsVal rooms) (.list (clueVals clues))
+        = .ok (defaultPrefix ++ tail Gen.heyawakeCodec.urlName w h body) ∧
+      deserializePuzzle Gen.heyawakeCodec (defaultPrefix ++ tail Gen.heyawakeCodec.urlName w h body)
+        = .ok (.tuple [.int h, .int w,
+            .tuple [roomsVal (canonRooms h w rooms), .list (canonValues h w rooms (clueVals clues))]]) ∧
+      getPuzzleInfo (defaultPrefix ++ tail Gen.heyawakeCodec.urlName w h body) = .ok (Gen.heyawakeCodec.urlName, h, w) ∧
+      ∃ cl : List Int, canonValues h w rooms (clueVals clues) = clueVals cl ∧
+        Pzpr.decodeHeyawakeN h w rooms.length body = some (bordersOf h w rooms, cl) := by
+  obtain ⟨body, hsp, hde0, hpz⟩ := heyawake_body h w hh hw rooms hv clues hl hcl
+  refine ⟨body, hsp, ?_, ?_, ?_, hpz⟩
   · unfold serializeHeyawake
     exact serProblemAsUrl_frame _ _ h w _ defaultPrefix _ hsp
   · unfold deserializePuzzle
@@ -274,10 +291,5 @@ theorem roundtrip_heyawake (h w : Nat) (hh : 1 ≤ h) (hw : 1 ≤ w) (hdh : Deci
       (serProblem_noNL _ (by decide) _ h w _ hsp) (by decide), deProblem_of_de _ _ h w _ _ hde0]
     rfl
   · exact getPuzzleInfo_frame defaultPrefix _ w h _ (Or.inl rfl) ⟨by decide, by decide⟩ hdw hdh
-  · have hb := C16Bits.pzpr_rooms_borders h w hh hw _ hv' true false t1 (by simpa [ser] using hs1) t2
-    have hn := C16PzprNum.pzpr_clue_seq ⟨h, w⟩ cl hclv t2 (by rw [hcll]; exact ht2)
-    rw [hcll] at hn
-    rw [bordersOf_perm hv hperm] at hb
-    simp [Pzpr.decodeHeyawakeN, hb, hn, Pzpr.whole]
 
 end Cspuz.Proofs.C16Rooms
